@@ -45,20 +45,22 @@ Proof.
 Qed.
 
 (* a state is not the error state of class EINTERNAL *)
-Definition nei (s : pst) : Prop := forall c, s = SErr c -> c <> EINTERNAL.
+Definition nei (s : pst) : Prop := forall c, s = SErr c \/ s = SLate c -> c <> EINTERNAL.
 
 Ltac nei_tac :=
   repeat (match goal with
           | H : nei ?s |- nei ?s => exact H
-          | |- nei (SErr _) => intros ? ?; congruence
+          | |- nei (SErr _) => intros ? [?|?]; congruence
+          | |- nei (SLate _) => intros ? [?|?]; congruence
           | |- nei (match ?x with _ => _ end) => destruct x; simpl
           | |- _ => progress unfold err
-          | |- nei _ => intros ? ?; discriminate
+          | |- nei _ => intros ? [?|?]; discriminate
           end).
 
 Lemma on_tok_nei : forall s t, nei s -> nei (on_tok s t).
 Proof.
   intros s t Hs; destruct s; simpl; unfold_parser; simpl; nei_tac.
+  all: intros c0 [E|E]; inversion E; subst; apply Hs; auto.
 Qed.
 
 Lemma pstep_nei : forall s x, nei s -> nei (pstep s x).
@@ -67,12 +69,12 @@ Proof.
 Qed.
 
 (* the model never produces the class EINTERNAL in a state *)
-Lemma no_einternal_state : forall r s, (forall c, s = SErr c -> c <> EINTERNAL) ->
+Lemma no_einternal_state : forall r s, nei s ->
   forall c, fold_left pstep r s = SErr c -> c <> EINTERNAL.
 Proof.
-  induction r as [|x r IH]; intros s Hs; simpl.
-  - exact Hs.
-  - apply IH. apply pstep_nei. exact Hs.
+  assert (G : forall r s, nei s -> nei (fold_left pstep r s)).
+  { induction r as [|x r IH]; intros s Hs; simpl; [exact Hs | apply IH; apply pstep_nei; exact Hs]. }
+  intros r s Hs c E. apply (G r s Hs). left; exact E.
 Qed.
 
 (* the same as final_tok of TsTokProofs.v; own copy under another name *)
@@ -89,7 +91,7 @@ Lemma parse_snoc : forall pre last, parse (pre ++ [last]) = pfinish (pstep (fold
 Proof. intros; unfold parse; rewrite fold_left_app; reflexivity. Qed.
 
 Lemma nei_start : nei SStart.
-Proof. intros c H; discriminate H. Qed.
+Proof. intros c [H|H]; discriminate H. Qed.
 
 Lemma parse_total_cases : forall pre last, final_rtok last = true ->
   (exists o, parse (pre ++ [last]) = Ok o) \/ parse (pre ++ [last]) = Error EBADMSG \/
